@@ -1624,7 +1624,7 @@ def gen_typed_geom(r):
     eps = draw_typed_eps(r)
     st = r.choice(["int", "int", "i64", "i32", "i16", "i8", "u8"])
     sens = tv(st, r.choice([1, 1, 1, 2, 3, 5]))
-    pw = r.choice([0, 10, 23, 24, 24, 25, 26, 27, 30, 31, 31, 32, 40, 52, 53, 53, 54, 60])
+    pw = r.choice([0, 10, 23, 24, 24, 25, 26, 27, 30, 31, 31, 32, 40, 52, 53, 53, 54, 60, 62, 63, 64, 70])
     x = (1 << pw) + r.randint(-6, 9) if pw else r.randint(-50, 50)
     if r.chance(0.3):
         x = -x
@@ -1640,6 +1640,9 @@ def gen_typed_geom(r):
         if variant == "f" and abs(hi) < 2 ** 20 and r.chance(0.5):
             ft = r.choice(FLOAT_T)                   # half-integer / float-typed bounds, exactly representable
             lo_t, hi_t = tv(ft, lo - r.choice([0, 0.5])), tv(ft, hi + r.choice([0, 0.5]))
+        elif variant == "f" and r.chance(0.4):
+            # float-typed bounds at any magnitude (quantised to the double grid, widened so that they stay apart)
+            lo_t, hi_t = tv("float", lo - 2 * abs(lo) * 2.0 ** -52 - 1), tv(r.choice(["float", "f64"]), hi + 2 * abs(hi) * 2.0 ** -52 + 1)
         m = r.u01()
         if m < 0.12:
             lo_t = ["float", -INF]
@@ -1667,6 +1670,14 @@ def check_types_geom(ctx, r, lines, cases):
         return
     s = eps / sens
     sig = typed_geom_sig(variant, spec)
+    probe = [sc.at_u(u, xs[k]) for k in ("x", "xp")
+             for u in [0.1, 0.45, 0.55, 0.9] + [0.5 + sg * 10.0 ** -j for sg in (1, -1) for j in range(1, 13)]]
+    if any(isinstance(o, str) for o in probe):
+        # e.g. GeometricTruncated/Folded with a noisy value outside [-2^63, 2^64): np.round(<python int>) raises TypeError
+        # on every draw, for both neighbours alike — a range matter (C12), counted here
+        ctx.count("typed_truncfold_raises:" + next(o for o in probe if isinstance(o, str)))
+        ctx.case(None)
+        return
     # (i) outputs on scripted uniforms against the model (which adds value and noise in doubles, as Python does)
     us = [r.u01() for _ in range(4)] + [0.5 + sg * r.loguniform(1e-9, 0.4) for sg in (1, -1)]
     lo_b, hi_b = val(spec.get("lower")), val(spec.get("upper"))
@@ -1694,17 +1705,15 @@ def check_types_geom(ctx, r, lines, cases):
     if not (geom_monotone_ok(sc, xs["x"], r, 12) and geom_monotone_ok(sc, xs["xp"], r, 12)):
         ctx.disagree("geometric.monotone", spec, "output non-increasing in u on each half", "not monotone")
         return
-    step = 1
     top = max(abs(x), abs(xp))
-    while top >= (1 << 53) * step:
-        step *= 2                              # beyond 2^53 the outputs live on the double grid
-    atoms = sorted({a + k * step for a in (x, xp) for k in range(-4, 5)} | {x + k for k in range(-2, 3)})
+    atoms = sorted({a + k for a in (x, xp) for k in range(-4, 5)})
     if variant == "t":
         atoms = sorted(set(atoms) | {int(b) for b in (lo_b, hi_b) if abs(b) != INF})
     try:
         masses = {k: {o: geom_atom_mass(sc, xs[k], o) for o in atoms} for k in ("x", "xp")}
-    except ValueError:
-        ctx.count("geom_error_outcome_skipped")
+    except ValueError as e:
+        # e.g. GeometricTruncated beyond 2^64: np.round(<python int>) raises TypeError (range/exception: C12's business)
+        ctx.count("typed_geom_error_outcome:" + str(e)[:40])
         return
     bound = exp_eps(eps)
     unc = 6 * CELL + 2 * CUT_CELLS * CELL
@@ -1717,8 +1726,8 @@ def check_types_geom(ctx, r, lines, cases):
                 done = True
     ctx.case(("typed-geom", repr(spec)))
     ctx.count("typed_geom_cases")
-    if top + 64 < 2 ** 53:
-        # below 2^53 double arithmetic on these integers is exact: the closed-form law applies atom by atom
+    if True:
+        # the sum is exact integer arithmetic (c709270): the closed-form law applies atom by atom at every magnitude
         inner = [o for o in atoms if variant == "p" or
                  ((abs(lo_b) == INF or o > lo_b) and (abs(hi_b) == INF or o < hi_b))]
         if inner:
